@@ -8,7 +8,7 @@ CLAIMED = {
         design="5.5",
         technique="deterministic simulation: seeded parking scheduler over pint's promapi goroutines + fake clock + simulated Prometheus servers; invariants at the server, porcupine linearizability of the recorded history",
         text="Seeded search over interleavings of 2-8 callers x worker pools x 1-3 simulated upstreams with delays, stalls and injected errors, run against the real internal/promapi code inside a testing/synctest bubble. Single-flight and the in-flight bound are invariants evaluated at the simulated server on every request; 'asked once per run', answer attribution, register-linearizability (porcupine) of caller-visible answers, the explicit Config TTL and bounded-time completion are checked over the recorded history. Sampling, not proof: a clean batch is evidence over the schedules and fault plans explored.",
-        note="Trusted: Go runtime + testing/synctest (fake clock, quiescence), net.Pipe network stub, the simulated Prometheus API layer, porcupine. Map iteration order inside pint is not controlled by the schedule tape. The race detector is blind under the serialising scheduler (not claimed here).",
+        note="Trusted: Go runtime + testing/synctest (fake clock, quiescence), net.Pipe network stub, the simulated Prometheus API layer, porcupine. Map iteration order inside pint is not controlled by the schedule tape. The race detector is blind under the serialising scheduler, so the same scenarios also run free (scheduler off) in a -race build as an auxiliary observation; only data-race reports count there.",
     ),
     "C15": dict(
         design="5.6",
